@@ -42,6 +42,15 @@ theorem WL.get_push (wl : WL) (l : Lit) (ci : Nat) (p : Bool) (v : Nat) :
 @[simp] theorem WL.get_empty (p : Bool) (v : Nat) : WL.empty.get p v = [] := by
   cases p <;> simp [WL.empty, WL.get]
 
+instance : LawfulBEq Lit where
+  eq_of_beq {a b} h := by
+    cases a; cases b
+    simp only [BEq.beq] at h
+    simpa [instBEqLit.beq] using h
+  rfl {a} := by
+    cases a
+    simp [BEq.beq, instBEqLit.beq]
+
 /-! ## partial models -/
 
 /-- `m'` agrees with `m` wherever `m` is defined -/
@@ -512,6 +521,9 @@ theorem lneg_pol (l : Lit) : l.neg.pol = !l.pol := rfl
 
 theorem lit_eq_neg {w l : Lit} (hv : w.var = l.var) (hp : w.pol = !l.pol) : w = l.neg := by
   cases w; cases l; simp_all [Lit.neg]
+
+theorem lit_ext {w l : Lit} (hp : w.pol = l.pol) (hv : w.var = l.var) : w = l := by
+  cases w; cases l; simp_all
 
 /-- setting `l` makes only `¬l` newly false -/
 theorem watchOKX_set {cnf : Cnf} {wl : WL} {m : PModel} {X : Lit → Prop} {l : Lit}
